@@ -278,9 +278,9 @@ SPECS = {
     },
     "C20": {
         **_cmeta('Generated integer sequences over 1..255 with 0 terminators (random, single string, abab, aaaa, deeply nested repeats, near-identical strings, no repeated pair; with and without the final terminator) compressed by RePair; the compacted sequence is walked as the dictionary constructors do and expanded through the grammar, compared symbol for symbol; rules checked for the terminator, symbol range against getBits(), expandRule and save/loadNoSeq.', 'property-based testing (rapidcheck), decompression round trip + grammar invariants'),
-        "stages": comp_stages([("RePair", 0, 2500, 500), ("RePair", 1, 2500, 500), ("RePair", 2, 2500, 500), ("RePair", 3, 2500, 500), ("RePair", 4, 2500, 500), ("RePair", 5, 2500, 500)],
+        "stages": comp_stages([("RePair", 0, 2500, 500), ("RePair", 1, 2500, 500), ("RePair", 2, 2500, 500), ("RePair", 3, 2500, 500), ("RePair", 4, 2500, 500), ("RePair", 5, 2500, 500), ("RePair", 6, 400, 300)],
                               floors={"repair_nested_rules": 200, "repair_no_rules": 20, "repair_single_string": 50}),
-        "rule": "case = integer sequence of 1..400 strings with terminators + maxchar; non-trivial = >=1 rule whose expansion contains "
+        "rule": "sub-class 6: case = history of 200-12 000 insert / delete / lookup operations on the compressor's pair table (8-256 cells, <= 24 live pairs) against a map model, invariant: an empty cell remains. Other sub-classes: case = integer sequence of 1..400 strings with terminators + maxchar; non-trivial = >=1 rule whose expansion contains "
                 "another rule, or zero rules on >=2 strings; distinct = hash of the case bytes",
         "assumptions": ["the grammar is read through -fno-access-control in the harness translation unit"],
     },
